@@ -103,6 +103,11 @@ def main():
     rc, o = sh(dcmd, cwd=wt, env=denv)
     p1, f1 = counts(o)
     rec["demo_with_change"] = {"rc": rc, "passed": p1, "failed": f1}
+    aborted = rc != 0 and "Running " in o and ("SIGABRT" in o or "SIGSEGV" in o or "has overflowed its stack" in o)
+    if aborted:
+        # the test process was killed (e.g. stack overflow): that is a failing demonstration, not a compile error
+        rec["demo_with_change"]["aborted"] = True
+        f1 = max(f1, 1)
     if rc == 0 or f1 == 0:
         # a compile error of the demo also counts as "does not demonstrate"
         print("REJECT: demo does not fail with the change\n", o[-1500:]); sh(["git", "checkout", "--", "."], cwd=wt); os.remove(tfile); return 1
